@@ -970,12 +970,13 @@ pub fn run(ctx: &mut Ctx, _args: &Args) {
     let fonts = load_fonts(&corpus, &synth);
     ctx.extra.insert("fonts_with_outlines".into(), json!(fonts.len()));
     ctx.extra.insert("fonts_with_truetype_programs".into(), json!(fonts.iter().filter(|f| f.tt_programs).map(|f| f.name.clone()).collect::<Vec<_>>()));
-    let per_font = ctx.tier.pick(540usize, 6000);
+    let per_font = ctx.tier.pick(540usize, 4000);
     let mut item = 0usize;
     for k in 0..per_font {
-        for fi0 in 0..fonts.len() {
-            // rotate so that a shard does not always get the same fonts
-            let fi = (fi0 + k) % fonts.len();
+        // a fresh permutation of the fonts per round so that a shard does not always get the same (cheap or costly) fonts
+        let mut perm: Vec<usize> = (0..fonts.len()).collect();
+        Rng::derive(ctx.seed, "c12-font-order", k as u64).shuffle(&mut perm);
+        for fi in perm {
             let mine = ctx.mine(item);
             item += 1;
             if !mine {
